@@ -175,7 +175,7 @@ int main(int argc, char **argv)
 			unsigned w = (R - so + pre) % R;
 			unsigned poss[] = { (w + R - 1) % R, w, (w + 1) % R, (w + R - maxlen) % R, (w + R - minlen) % R,
 			                    0, 1, R - 1, R - 2, (R - so) % R, (R - so - 1) % R, (w + R / 2) % R };
-			for (k = 0; k < pre; ++k) { c[k].copy = 0; c[k].value = (k * 31 + 5) & 0xFF; c[k].len = 1; }
+			for (k = 0; k < pre; ++k) { c[k].copy = 0; c[k].value = (k * 31 + 5 + (k >> 8) * 13) & 0xFF; c[k].len = 1; }      /* no period of 256: slots 256 apart differ */
 			for (k = 0; k < sizeof poss / sizeof *poss; ++k)
 			for (li = 0; li < 16; ++li) {
 				c[pre].copy = 1; c[pre].value = poss[k]; c[pre].len = minlen + li;
@@ -183,6 +183,33 @@ int main(int argc, char **argv)
 				if (vf_case("%s %u literals then C(%u,%u) C(%u,%u)", method, pre, poss[k], minlen + li, (poss[k] + 3) % R, maxlen))
 					check_cmds(method, variant, c, pre + 2, 1);
 			}
+		}
+	} else if (!strcmp(VF.space, "lz5-runs")) {
+		/* -lz5- groups its commands in runs of eight under one flag byte.  A first run of one copy (3..18 bytes) and seven
+		 * literals, then 0..2 runs of eight literals, put the start of the run under test at every write position from 8 before
+		 * to 23 after the end of the ring; the run under test has one of 6 flag patterns; a copy then reads the ring around
+		 * position 0 and around the run */
+		static const uint8_t flags[6] = { 0xFF, 0x00, 0x0F, 0xF0, 0xAA, 0x55 };
+		static ref_cmd c[64];
+		unsigned L1, kr, fi, ci;
+		for (L1 = 3; L1 <= 18; ++L1)
+		for (kr = 0; kr < 3; ++kr)
+		for (fi = 0; fi < 6; ++fi)
+		for (ci = 0; ci < 6; ++ci) {
+			static const unsigned reads[6] = { 0, 1, 4095, 4094, 7, 4089 };
+			int n = 0, b;
+			unsigned v = 0x30;
+			if (!vf_case("-lz5- copy of %u + 7 literals, %u runs of 8 literals, a run with flags %02x, then a copy from ring position %u", L1, kr, flags[fi], reads[ci])) continue;
+			c[n].copy = 1; c[n].value = 100; c[n].len = L1; ++n;
+			for (b = 0; b < 7 + 8 * (int) kr; ++b) { c[n].copy = 0; c[n].value = v++ & 0xFF; c[n].len = 1; ++n; }
+			for (b = 0; b < 8; ++b) {
+				if (flags[fi] & (1u << b)) { c[n].copy = 0; c[n].value = (0xC0 + b) & 0xFF; c[n].len = 1; }
+				else { c[n].copy = 1; c[n].value = (4070 + 3 * (unsigned) b) % 4096; c[n].len = 3 + (unsigned) b % 4; }
+				++n;
+			}
+			c[n].copy = 1; c[n].value = reads[ci]; c[n].len = 9; ++n;
+			c[n].copy = 0; c[n].value = 0x7E; c[n].len = 1; ++n;
+			check_cmds("-lz5-", '5', c, n, 1);
 		}
 	} else {
 		fprintf(stderr, "unknown space %s\n", VF.space);
